@@ -18,16 +18,20 @@ BOUNDS = {
 ASSUMPTIONS = [
     "oracle = source of encoding/json of the Go toolchain the engine loads (go1.26.8), executed symbolically next to the v1 code",
     "sync.Pool (jsontext decoder/encoder pools, encoding/json scanner pool) modelled sequentially by the engine",
-    "Indent: inputs on which v1.Indent does not terminate (known finding KF-C09-indent-trailing-ws, sub-case empty indent with non-blank "
-    "prefix and more than len(prefix) spaces after a newline in trailing whitespace) are cut by an assumption, since a bounded run cannot "
-    "report non-termination as a value; disagreements inside the rest of the finding's region are attributed to the finding",
+    "Indent with a non-blank prefix and an empty indent (pair (\">\",\"\")): v1.Indent does not return when a rewritten run of spaces is "
+    "longer than the prefix (sub-case of known finding KF-C09-indent-trailing-ws; natively too). A bounded run cannot report "
+    "non-termination as a value, so for that pair every input that contains a newline followed by more than len(prefix) spaces is cut "
+    "by an assumption (over-approximation of the hanging inputs). Disagreements inside the rest of the finding's region (valid input "
+    "whose trailing whitespace has a newline followed by spaces that the prefix/indent pattern overwrites with a non-space) are "
+    "attributed to the finding; any other disagreement is a violation",
+    "error values are compared only for presence (nil / non-nil); SyntaxError text and Offset are not compared",
 ]
 
 AR = ["accept", "reject"]
 PAIRS = [("", ""), ("", "\t"), ("", "  "), (">", "x"), ("p", " "), (">", "")]
 # skeletons for Valid / Compact ('?' = unconstrained byte)
 VT_Q = ['[?,?]', '{"?":?}', 'tru?', '"\\??"', '{"?":1,"?":2}']
-VT_T = VT_Q + ['-?.?e??', ' ?1? ', 'fals?', 'nul?', '"\\u????"', '{"a":?,"b":?}', '[[?]]?', '[?,?,?]', '{"a":{"?":?}}', '??.??', '"??"?', '[1e?,-?]']
+VT_T = VT_Q + ['-?.?e??', ' ?1? ', 'fals?', 'nul?', '"\\u00??"', '"\\u?8?f"', '{"a":?,"b":?}', '[[?]]?', '[?,?,?]', '{"a":{"?":?}}', '??.??', '"??"?', '[1e?,-?]']
 # skeletons for Indent
 IT_Q = ['1??', '[1,?]', '{"a":?}']
 IT_T = IT_Q + ['[?]??', '[1]???', '{"a":[?]}?', ' [?, ?]\n', '[{}?[]?1]', '{"a":1}\n? ']
